@@ -122,6 +122,7 @@ type Config struct {
 	Horizon     time.Duration
 	PreemptCost bool // true: free choice at blocking points (preemption bounding)
 	SelectCost  bool // true: a non-first ready case of the same thread costs one deviation
+	Race        bool // keep vector clocks and check goat's field/map accesses for happens-before races
 }
 
 // Result of one execution.
@@ -168,6 +169,7 @@ type Exec struct {
 	objseq    int
 	nthreads  int
 	timers    []timerEntry
+	race      *raceState
 }
 
 var ex *Exec
@@ -195,6 +197,9 @@ func Run(t *testing.T, cfg Config, body func()) *Result {
 			start:    time.Now(),
 		}
 		ex = e
+		if cfg.Race {
+			e.raceInit()
+		}
 		root := e.newThread(nil, "root", "root")
 		e.root = root
 		e.cur = root
@@ -211,6 +216,16 @@ func Run(t *testing.T, cfg Config, body func()) *Result {
 			res.Parked = append(res.Parked, th.info())
 			th.wake <- sigKill
 			<-e.exitCh
+		}
+		if e.race != nil {
+			keys := make([]string, 0, len(e.race.races))
+			for k := range e.race.races {
+				keys = append(keys, k)
+			}
+			sort.Strings(keys)
+			for _, k := range keys {
+				res.Violations = append(res.Violations, Violation{Key: "C15/race|" + k, Msg: e.race.races[k]})
+			}
 		}
 		res.End = e.end
 		res.Steps = e.steps
@@ -233,6 +248,9 @@ func (e *Exec) newThread(parent *Thread, name, site string) *Thread {
 		parent.nspawn++
 	}
 	e.threads = append(e.threads, t)
+	if e.race != nil && parent != nil {
+		e.race.spawn(parent, t)
+	}
 	return t
 }
 
@@ -605,11 +623,23 @@ func (e *Exec) perform(a alt) {
 	case opStart, opContinue, opYield, opQuiesce:
 	case opLock:
 		t.mu.locked = true
+		if e.race != nil {
+			e.race.acquire(t, t.mu)
+		}
 	case opRLock:
 		t.rw.r++
+		if e.race != nil {
+			e.race.acquire(t, t.rw)
+		}
 	case opWLock:
 		t.rw.w = true
+		if e.race != nil {
+			e.race.acquire(t, t.rw)
+		}
 	case opWait:
+		if e.race != nil {
+			e.race.acquire(t, t.wg)
+		}
 	case opSelect:
 		t.rcase = a.c
 		if a.c >= 0 {
@@ -622,8 +652,20 @@ func (e *Exec) perform(a alt) {
 					if !c.doSend(c.val) {
 						engineFail("buffered send would block")
 					}
+					if e.race != nil {
+						e.race.chq[c.key] = append(e.race.chq[c.key], e.race.of(t).copyOf())
+						e.race.tick(t)
+					}
 				} else {
 					p := a.p
+					if e.race != nil {
+						// rendezvous: both sides learn what the other knew
+						j := e.race.of(t).copyOf().join(e.race.of(p))
+						e.race.vc[t] = j.copyOf()
+						e.race.vc[p] = j.copyOf()
+						e.race.tick(t)
+						e.race.tick(p)
+					}
 					p.rcase = a.pc
 					p.rval = c.val
 					p.rok = true
@@ -637,8 +679,21 @@ func (e *Exec) perform(a alt) {
 						engineFail("buffered receive would block")
 					}
 					t.rval, t.rok = v, ok
+					if e.race != nil {
+						if q := e.race.chq[c.key]; len(q) > 0 {
+							e.race.vc[t] = e.race.of(t).join(q[0])
+							e.race.chq[c.key] = q[1:]
+						}
+					}
 				} else {
 					t.rval, t.rok = nil, false // closed
+					if e.race != nil {
+						if _, ok := e.race.objs[c.key]; ok {
+							e.race.acquire(t, c.key) // closed by instrumented code
+						} else {
+							e.race.vc[t] = e.race.of(t).join(e.race.cancel) // a context's Done channel
+						}
+					}
 				}
 			}
 		}
@@ -680,6 +735,9 @@ func (e *Exec) advance() bool {
 		synctest.Wait()
 		e.advancing = false
 		e.fireTimers()
+		if e.race != nil {
+			e.race.barrier(e.threads)
+		}
 		if e.cfg.Verbose {
 			e.res.Trace = append(e.res.Trace, fmt.Sprintf("-- clock advanced to +%v", time.Since(e.start)))
 		}
